@@ -7,6 +7,7 @@ pub mod qconc;
 pub mod queue;
 pub mod rtwait;
 pub mod sel;
+pub mod stack;
 pub mod time;
 pub mod timeouts;
 pub mod tlcache;
@@ -23,5 +24,6 @@ pub static ALL: &[Comp] = &[
     Comp { name: "local", gen: local::gen, exec: local::exec, isolate_ms: 5000 },
     Comp { name: "beans", gen: beans::gen, exec: beans::exec, isolate_ms: 10000 },
     Comp { name: "sel", gen: sel::gen, exec: sel::exec, isolate_ms: 8000 },
+    Comp { name: "stack", gen: stack::gen, exec: stack::exec, isolate_ms: 10000 },
     Comp { name: "pq", gen: queue::gen_pq, exec: queue::exec_pq, isolate_ms: 500 },
 ];
